@@ -879,3 +879,10 @@ func resultsOf(r *ssa.Return) []ssa.Value {
 	}
 	return out
 }
+
+func constInt64Val(c *types.Const) (int64, bool) {
+	if c == nil || c.Val() == nil {
+		return 0, false
+	}
+	return constant.Int64Val(constant.ToInt(c.Val()))
+}
